@@ -21,6 +21,8 @@ func init() {
 			{"C01.mapping", ruleC17, ""},
 			{"C01.key-limits", ruleC16Consts, ""},
 			{"C01.scan-cursor", ruleC11Cursor, ""},
+			{"C01.size-mirror", ruleC04SizeMirror, ""},
+			{"C01.guarded", ruleGuarded, ""},
 			{"C01.kernel", ruleKernelShapes("(*pogreb.index).bucketIndex", "(*pogreb.bucket).del", "(*pogreb.slotWriter).insert", "(*pogreb.slotWriter).write", "(*pogreb.index).createOverflowBucket", "(*pogreb.bucketIterator).next", "(*pogreb.index).newBucketIterator", "(pogreb.slot).kvSize", "(*pogreb.datalog).readKey", "(*pogreb.datalog).readKeyValue"), ""},
 		},
 		Explanation: "Decides structural necessary conditions of map semantics of the hash index, for all key sets and hash layouts at once: (chain-exit) no lookup/insert/delete/scan/compaction walk of a bucket chain can end before end-of-chain, an error or a key/record match; (match-equal) a key callback reports a match only behind bytes.Equal(sought key, key stored in the log for that slot); (count, overwrite-flag) index.numKeys moves +1 exactly on insertion of a new key and -1 exactly on a removal, after the bucket write; (split) a split updates the addressing state before redistributing, publishes numBuckets after both writes, frees old overflow buckets after the walk; (addressing) every walk starts at bucketIndex(hash of the key) and Put stores the slot with that hash and the location the log append returned. (chain-links) bucket.next is written only by decoding and by linking a bucket createOverflowBucket just handed out, and overflow buckets are put on the free list only under split, so no chain is cut or re-linked while it holds keys; NOT decided: equality with a reference map for all histories, the redistribution arithmetic itself, the hash function.",
@@ -43,6 +45,8 @@ func init() {
 			{"C06.errs", ruleErrs, ""},
 			{"C06.recover-syncs", ruleC06RecoverSyncs, ""},
 			{"C06.size-mirror", ruleC04SizeMirror, ""},
+			{"C06.segment-end", ruleC03CompactComplete, ""},
+			{"C06.close-all-segments", ruleCloseOrder, ""},
 		},
 		Explanation: "Under the stated power-loss model, decides three structural necessary conditions over all paths: (sync-reaches-fsync) DB.Sync, and Put/Delete in sync-after-every-write mode, cannot return success without File.Sync on the current segment, except through the test 'current segment is sealed'; OS-backed File implementations resolve Sync to (*os.File).Sync; (seal-sync) a segment is marked full only after a successful File.Sync of that same segment, so nothing is left unflushed when the log moves on; (unlink-after-durable) in compaction every path from a record copy to FileSystem.Remove passes File.Sync of the current segment. NOT decided: the contents of each power-loss image; that fsync honours its contract.",
 		Assumptions: commonAssumptions,
@@ -58,6 +62,7 @@ func init() {
 			{"C09.commit-last", ruleCloseOrder, ""},
 			{"C09.errs", ruleErrs, ""},
 			{"C09.meta-symmetry", ruleC02MetaSymmetry, ""},
+			{"C09.older-first", ruleC03OlderFirst, ""},
 		},
 		Explanation: "Decides, on the call-string-cloned interprocedural graph of DB.Close: (sync-before-close) every fs.File.Close of a written file that lies on a success path of DB.Close is preceded on every path by File.Sync on the same file (same access path through the call string) with no write in between; (commit-last) writeMeta, datalog.close, index.close precede LockFile.Unlock on every path, every success return passes Unlock, nothing touches the file system after Unlock, only DB.Close calls Unlock, and datalog.close skips only nil segments. (sync-before-close, extended) DB.mu is not released between a file's last Sync and its Close; NOT decided: that every power-loss image after Close reopens to the closed contents.",
 		Assumptions: commonAssumptions,
@@ -71,6 +76,7 @@ func init() {
 			{"C15.seal-sites", ruleSealSites, ""},
 			{"C15.mapping", ruleC17, ""},
 			{"C15.worker-tickers", ruleWorkerTickers, ""},
+			{"C15.readdir-order", ruleReadDirOrder, ""},
 			{"C15.backup-closes-files", ruleBackupClosesFiles, ""},
 			{"C15.segment-id-scan", ruleSegmentIDScan, ""},
 			{"C15.remove-only-compaction", ruleRemoveSegmentOnlyCompaction, ""},
@@ -110,6 +116,7 @@ func init() {
 			{"C19.alloc-bound", ruleC19AllocBound, ""},
 			{"C19.tail-handling", ruleC08Gates, ""},
 			{"C19.segment-end", ruleC03CompactComplete, ""},
+			{"C19.layout", ruleRecordLayout, ""},
 			{"C19.remove-only-compaction", ruleRemoveSegmentOnlyCompaction, ""},
 			{"C19.logger-non-nil", ruleLoggerNonNil, ""},
 		},
@@ -131,6 +138,7 @@ func init() {
 			{"C07.scan-cursor", ruleC11Cursor, ""},
 			{"C07.count", ruleC01Count, ""},
 			{"C07.copy-inside-lock", ruleC14CopyInsideLock, ""},
+			{"C07.copied", ruleC14NoAliasOut, ""},
 			{"C07.no-retained-locations", ruleNoRetainedLocations, "primary"},
 		},
 		Explanation: "Decides only the critical-section structure linearizability needs, with a path-sensitive lockset analysis on the call-string-cloned interprocedural graph of every API entry: (guarded) every read/write of index, datalog, segment-meta and file-size state and every fs.File call on a shared index/segment file reachable from an entry is made with DB.mu held in the required mode; (one-section) Put, Delete, Get, GetAppend, Has, Count, Sync and one iterator refill never release DB.mu and take it again; (balanced) every entry returns with the lockset it was entered with. (no-retained-locations) no long-lived state can hold an index slot across critical sections; every store into memory reachable from the handle holds DB.mu exclusively; NOT decided: the existence of a linearization for every history.",
@@ -144,6 +152,7 @@ func init() {
 			{"C10.balanced", ruleBalanced, ""},
 			{"C10.lock-order", ruleLockOrder, ""},
 			{"C10.goroutine", ruleGoroutine, ""},
+			{"C10.ticker-positive", ruleTickerPositive, ""},
 			{"C10.fs-calls", ruleFSCalls, ""},
 			{"C10.fs-readers-pure", ruleFSReadersPure, ""},
 			{"C10.copy-inside-lock", ruleC14CopyInsideLock, ""},
@@ -245,6 +254,8 @@ func init() {
 			{"C12.sequence-monotonic", ruleC03SequenceMonotonic, ""},
 			{"C12.error-fatal", ruleErrorFatal("(*pogreb.DB).Backup"), "primary"},
 			{"C12.older-first", ruleC03OlderFirst, ""},
+			{"C12.size-mirror", ruleC04SizeMirror, ""},
+			{"C12.balanced", ruleBalanced, ""},
 		},
 		Explanation: "Decides: Backup holds maintenanceMu for all its file-system calls, guarded accesses and DB.mu acquisitions (compaction excluded for the whole backup, capture included); the copy bounds are file.size of not-full segments captured with DB.mu held; whole-file io.Copy is used only for segments absent from the captured map and io.CopyN is bounded by the captured size; every success return creates the lock file in the backup; the source file system is only opened read-only; datalog state is never read without DB.mu (guarded). NOT decided: that the opened backup equals the state at one instant for all schedules.",
 		Assumptions: commonAssumptions,
@@ -279,6 +290,7 @@ func init() {
 			{"C18.key-limits", ruleC16Consts, ""},
 			{"C18.single-write", ruleC03SingleWrite, ""},
 			{"C18.size-mirror", ruleC04SizeMirror, ""},
+			{"C18.older-first", ruleC03OlderFirst, ""},
 			{"C18.record-validity", ruleC08Gates, ""},
 			{"C18.addressing", ruleKernelShapes("(*pogreb.index).bucketIndex", "(*pogreb.bucketIterator).next", "(*pogreb.index).newBucketIterator", "pogreb.encodedRecordSize", "(pogreb.slot).kvSize", "(*pogreb.datalog).readKey", "(*pogreb.datalog).readKeyValue"), ""},
 		},
@@ -339,6 +351,8 @@ func init() {
 			{"C17", ruleC17, ""},
 			{"C17.header", ruleC18Header, ""},
 			{"C17.sub-paths", ruleSubPaths, ""},
+			{"C17.readdir-order", ruleReadDirOrder, ""},
+			{"C17.open-flags", ruleOpenFlags, ""},
 			{"C17.backup", ruleC12, ""},
 			{"C17.size-mirror", ruleC04SizeMirror, ""},
 			{"C17.fs-readers-pure", ruleFSReadersPure, ""},
